@@ -965,6 +965,9 @@ class Interp:
                 return base_v.elem("last")
             if li.const == 0:
                 return base_v.elem("first")
+            if float(li.const) == int(li.const):
+                # any other constant position is an element of its own (equal to an end only for particular lengths)
+                return base_v.elem(str(int(li.const)))
         if isinstance(base_v, Rng) and li is not None and li.is_const():
             if li.const == 0:
                 return base_v.lo
